@@ -51,7 +51,8 @@ Theorem recordsz_formula (r : rec) (s : setter RN) :
   rwf RN r -> rvalid RN r = true -> no_alias0 RN r -> setter_ok RN r s ->
   exists r', apply_setter RN zeroA r s = (r', None) /\
     rdt RN r' = rdt RN (configured RN r s) /\ rdur RN r' = rdur RN (configured RN r s) /\
-    rincl RN r' = rincl RN (configured RN r s) /\ formula_inv r'.
+    rincl RN r' = rincl RN (configured RN r s) /\
+    Z.of_nat (N (rg RN r')) = Z.max (Zceil (rdur RN r' / rdt RN r') + (if rincl RN r' then 1 else 0)) 1.
 Proof.
   intros Hwf Hv Hna Hok.
   destruct (setter_spec RN cast promote D_eqb zeroA default_d r s Hwf Hv Hna Hok)
@@ -60,6 +61,34 @@ Proof.
   unfold formula_inv. rewrite HN, Hdt, Hdur, Hincl. unfold rsize.
   pose proof (rsize_pos RN cast promote D_eqb zeroA default_d (configured RN r s)) as Hp. unfold rsize in Hp.
   rewrite Z2Nat.id by lia. apply recordsz_expr_documented.
+Qed.
+
+Lemma inv_formula (r : rec) : Inv RN r -> formula_inv r.
+Proof.
+  intros (_ & _ & _ & _ & HN). unfold formula_inv. rewrite HN. unfold rsize.
+  pose proof (rsize_pos RN cast promote D_eqb zeroA default_d r) as Hp. unfold rsize in Hp.
+  rewrite Z2Nat.id by lia. apply recordsz_expr_documented.
+Qed.
+
+(* ... and this holds in every state reachable from the constructor through pushes, reads, pointer
+   moves, temporal assignments (accepted or refused), reconstrain calls (accepted or refused) and
+   deinitialisation, in any order *)
+Theorem run_formula strict live param ucons dt dur incl (value : option (@tensor A D)) (r0 : rec) ops :
+  rcreate RN strict live param ucons dt dur incl value = inl r0 ->
+  NoDup (map fst ucons) ->
+  match value with Some t => length (tflat t) = nel (tshape t) | None => True end ->
+  (strict = true \/ match value with
+                    | Some t => forall dd s, In (dd, s) (shift_cons ucons) -> pyidx (S (length (tshape t))) dd <> 0%nat
+                    | None => True end) ->
+  all_good RN cast promote D_eqb zeroA default_d r0 ops ->
+  let r := rrun RN cast promote D_eqb zeroA default_d r0 ops in
+  Inv RN r /\
+  Z.of_nat (N (rg RN r)) = Z.max (Zceil (rdur RN r / rdt RN r) + (if rincl RN r then 1 else 0)) 1.
+Proof.
+  intros Hc Hnd Hv Hal Hg.
+  pose proof (rcreate_inv RN cast promote D_eqb zeroA default_d _ _ _ _ _ _ _ _ _ Hc Hnd Hv Hal) as H0.
+  pose proof (rrun_inv RN cast promote D_eqb zeroA default_d ops r0 H0 Hg) as H1.
+  split; [exact H1|apply inv_formula; exact H1].
 Qed.
 
 End Formula.
